@@ -139,7 +139,9 @@ def rename_case(draw, profile):
     # collide with, because an update that leaks out of the callee's frame lands in that local
     written = set()
     for c in p.get("classes", []):
-        fnames = {f["name"] for f in c["fields"]}
+        if c["name"] == "T":
+            continue  # the tracer's own counter
+        fnames = {f["name"] for cc in genclass.ancestors(p["classes"], c["name"]) for f in cc["fields"]}
         for m in c.get("methods", []):
             def fs(s_, fnames=fnames):
                 if s_["k"] in ("assign", "post") and s_.get("name") in fnames:
@@ -147,11 +149,16 @@ def rename_case(draw, profile):
                 if s_["k"] == "expr" and isinstance(s_.get("e"), dict) and s_["e"].get("k") == "post" and s_["e"].get("name") in fnames:
                     written.add(s_["e"]["name"])
             genprog.walk_stmts(m["body"], fs, lambda e: None)
-    if written and not F["cls"] and draw(st.booleans()):
-        # rename a plain function's (typically main's) int local, preferably
-        ints = sorted({s_["name"] for s_ in _decls(F) if s_["t"] == "int"})
-        if ints:
-            v = draw(st.sampled_from(ints))
+    force_hot = False
+    if written and draw(st.booleans()):
+        # rename an int local of a plain function (main first: it is on the stack during every call), to such a field's name
+        plain = [G for G in Fs if not G["cls"] and any(s_["t"] == "int" for s_ in _decls(G))]
+        mains = [G for G in plain if G["name"] == "main"]
+        if plain:
+            F = draw(st.sampled_from(mains if (mains and draw(st.integers(0, 3)) > 0) else plain))
+            mine = declared_names(F)
+            v = draw(st.sampled_from(sorted({s_["name"] for s_ in _decls(F) if s_["t"] == "int"})))
+            force_hot = True
     # candidate new names: locals/params of OTHER bodies, fields of classes, and a fresh one
     others = set()
     for G in bodies(p):
@@ -163,10 +170,23 @@ def rename_case(draw, profile):
     fresh = "zq7"
     w = draw(st.sampled_from(cands + cands + [fresh])) if cands else fresh
     hotw = sorted(written - forbidden)
-    if hotw and draw(st.booleans()):
+    if hotw and (force_hot or draw(st.booleans())):
         w = draw(st.sampled_from(hotw))
-    return {"prog": p, "where": F["where"], "v": v, "w": w, "collides": w != fresh, "profile": profile,
-            "field_collision": w in fields, "from_shadowing": bool(F["cls"]) and v in hierarchy_names(p, F["cls"])}
+    # several renamings of the same body at once (a composition of single capture-free renamings): every further declared name
+    # of F gets its own colliding name, field names that methods update first
+    pairs = [[v, w]]
+    if draw(st.booleans()):
+        pool = [n for n in hotw + sorted(fields - forbidden) + cands if n != w]
+        seen = {w}
+        for v2 in sorted(set(mine) - {v}):
+            nxt = next((n for n in pool if n not in seen), None)
+            if nxt is None:
+                break
+            seen.add(nxt)
+            pairs.append([v2, nxt])
+    return {"prog": p, "where": F["where"], "v": v, "w": w, "pairs": pairs, "collides": w != fresh, "profile": profile,
+            "field_collision": any(b in fields for _, b in pairs),
+            "from_shadowing": bool(F["cls"]) and v in hierarchy_names(p, F["cls"])}
 
 
 class C09(Check):
@@ -194,7 +214,10 @@ class C09(Check):
                 if stats is not None:
                     stats.count("discarded_by_reference_filter")
                 return None
-        q = apply_rename(p, case["where"], case["v"], case["w"])
+        pairs = case.get("pairs") or [[case["v"], case["w"]]]
+        q = p
+        for a_, b_ in pairs:
+            q = apply_rename(q, case["where"], a_, b_)
         s1, s2 = self.render(p), self.render(q)
         r1 = progrun.run_cli(self.drv, sc, s1)
         r2 = progrun.run_cli(self.drv, sc, s2)
@@ -207,7 +230,8 @@ class C09(Check):
                 return {"why": "interpreter died", "source": s, **r.proc.brief()}
 
         def obs(r):
-            mask = lambda t: re.sub(r"\b(%s|%s)\b" % (re.escape(case["v"]), re.escape(case["w"])), "_", t)
+            names = "|".join(re.escape(n) for pr in pairs for n in pr)
+            mask = lambda t: re.sub(r"\b(%s)\b" % names, "_", t)
             d = None
             if r.diag:
                 d = (r.diag["cat"], mask(r.diag["msg"]))
@@ -220,8 +244,8 @@ class C09(Check):
             ok = o1["rc"] == 0
             tags = [case["profile"]] + (["collides"] if case["collides"] else ["fresh"]) + \
                    (["field_collision"] if case["field_collision"] else []) + (["renamed_shadowing_parameter"] if case.get("from_shadowing") else [])
-            stats.record({"p": p, "w": case["where"], "v": case["v"], "n": case["w"]}, case["collides"] and ok, tags=tags,
-                         sample={"renamed": f"{case['v']} -> {case['w']} in {case['where']}", "source": s1} if len(s1) < 1800 else None)
+            stats.record({"p": p, "w": case["where"], "pairs": pairs}, case["collides"] and ok, tags=tags + (["several_renamed"] if len(pairs) > 1 else []),
+                         sample={"renamed": f"{pairs} in {case['where']}", "source": s1} if len(s1) < 1800 else None)
         if o1["diag"] and o1["diag"][0] in ("Lexical", "Parse", "Semantic"):
             # the generators only emit accepted programs; a rejected original is a generator problem, not a C09 matter
             if stats is not None:
@@ -229,7 +253,7 @@ class C09(Check):
             if o2["diag"] and o2["diag"][0] == o1["diag"][0]:
                 return None
         if o1 != o2:
-            return {"why": f"renaming {case['v']} -> {case['w']} in {case['where']} changed the behaviour",
+            return {"why": f"renaming {', '.join(a_ + ' -> ' + b_ for a_, b_ in pairs)} in {case['where']} changed the behaviour",
                     "original": o1, "renamed": o2, "source_original": s1, "source_renamed": s2}
         return None
 
